@@ -170,6 +170,17 @@ def build(rng, depth=None, custom_data=None, auth_len=None, windows=None, leaf_c
             windows[rng.randrange(depth)] = "forever"
     m.root_key = new_key(rng)
     m.root_cert = make_cert("root", m.root_key.public_key(), "root", m.root_key, serial=1)
+    m.root_pem_shape = None
+    if rng.random() < 0.12:
+        # a root whose PEM body has no '=' padding and ends in a letter that also occurs in
+        # the "-----END CERTIFICATE-----" line below it (the body ends where it ends)
+        for serial in range(2, 400):
+            c = make_cert("root", m.root_key.public_key(), "root", m.root_key, serial=serial)
+            body = pem_body(c)
+            if not body.endswith("=") and body[-1] in "ENDCRTIFA":
+                m.root_cert = c
+                m.root_pem_shape = "unpadded-ending-in-" + body[-1]
+                break
     m.cert_keys = []
     m.certs = []
     issuer_key, issuer_cn = m.root_key, "root"
